@@ -45,17 +45,17 @@ type GMsg struct {
 }
 
 type CodecInput struct {
-	Kind       string `json:"kind"`  // data | time | meta
-	Class      string `json:"class"` // conformant | canonical | malformed
-	Wire       string `json:"wire"`  // hex
-	Msg        *GMsg  `json:"msg,omitempty"`
-	Mime       *string `json:"mime,omitempty"`
-	Present    string `json:"presentation,omitempty"`
+	Kind    string  `json:"kind"`  // data | time | meta
+	Class   string  `json:"class"` // conformant | canonical | malformed
+	Wire    string  `json:"wire"`  // hex
+	Msg     *GMsg   `json:"msg,omitempty"`
+	Mime    *string `json:"mime,omitempty"`
+	Present string  `json:"presentation,omitempty"`
 }
 
 type CodecObs struct {
 	Outcome Outcome
-	Msg     *GMsg   // decoded by the implementation
+	Msg     *GMsg // decoded by the implementation
 	Mime    *string
 	Reenc   []byte
 	Perm    int
